@@ -23,6 +23,7 @@ INVARIANT NoWarning
 INVARIANT RoundTrip
 INVARIANT BlocksAsWritten
 INVARIANT NormalForm
+INVARIANT FormsAgree
 INVARIANT CleanRoundTrip
 INVARIANT EmitText
 CHECK_DEADLOCK FALSE
